@@ -1,8 +1,8 @@
 use core::fmt;
-use core::sync::atomic::{AtomicUsize, Ordering};
 use core::time::Duration;
 use humantime::format_rfc3339;
 use serde::{Deserialize, Serialize};
+use std::sync::Mutex;
 use std::time::UNIX_EPOCH;
 
 /// Time since the year 2k in milliseconds
@@ -70,6 +70,10 @@ impl CreationTimestamp {
     }
     /// Create a new timestamp with automatic sequence counting
     ///
+    /// No two calls within a process return the same (time, sequence number) pair. While the
+    /// clock stays within one millisecond (or steps back) the previous time is kept and the
+    /// sequence number counts up; the first call in a later millisecond restarts at 0.
+    ///
     /// # Example
     /// ```
     /// use bp7::dtntime::*;
@@ -86,17 +90,19 @@ impl CreationTimestamp {
     /// assert_eq!(time3.seqno(), 0);
     /// ```
     pub fn now() -> CreationTimestamp {
-        // verification hook: instrumented atomics that yield to a scheduler before every operation
-        #[cfg(bp7_verif)]
-        use crate::verif_hooks::AtomicUsize;
-        static LAST_CREATION_TIMESTAMP: AtomicUsize = AtomicUsize::new(0);
-        static LAST_CREATION_SEQ: AtomicUsize = AtomicUsize::new(0);
+        // The pair handed out by the previous call (`None` before the first call). Time and
+        // sequence number are updated together under one lock, so no two calls can ever
+        // return the same pair, whatever the thread interleaving.
+        static LAST: Mutex<Option<(DtnTime, u64)>> = Mutex::new(None);
         let now = dtn_time_now();
-        if now != LAST_CREATION_TIMESTAMP.swap(now as usize, Ordering::Relaxed) as u64 {
-            LAST_CREATION_SEQ.store(0, Ordering::SeqCst)
-        }
-        let seq = LAST_CREATION_SEQ.fetch_add(1, Ordering::SeqCst);
-
-        CreationTimestamp::with_time_and_seq(now, seq as u64)
+        let mut last = LAST.lock().unwrap_or_else(|e| e.into_inner());
+        let (time, seq) = match *last {
+            // same millisecond, or the clock stepped back: stay on the last time, count on
+            Some((last_time, last_seq)) if now <= last_time => (last_time, last_seq + 1),
+            // first call, or a later millisecond: restart the sequence
+            _ => (now, 0),
+        };
+        *last = Some((time, seq));
+        CreationTimestamp::with_time_and_seq(time, seq)
     }
 }
